@@ -426,16 +426,22 @@ func runCheck(ctx *Ctx) int {
 	// alarm, but a reason to look harder (thorough generators, up to the thorough
 	// budget within a time cap; Extras may scale with ctx.Escalate).
 	drift := Drift(verif, ctx.Repo, p.ID)
+	// changed functions whose regenerated translation is tied by a theorem: no alarm of their
+	// own (the re-checked theorem is the tie), but the same enlarged search, with a smaller cap
+	tiedDrift := DriftTied(verif, ctx.Repo, p.ID)
 	genTier := ctx.Tier
 	driftBudget := time.Duration(0)
-	if len(drift) > 0 && ctx.Tier == "quick" && os.Getenv("VERIF_NO_DRIFT_ESCALATION") == "" {
+	if len(drift)+len(tiedDrift) > 0 && ctx.Tier == "quick" && os.Getenv("VERIF_NO_DRIFT_ESCALATION") == "" {
 		genTier = "thorough"
 		ctx.Escalate = 10
-		ctx.Drift = drift
+		ctx.Drift = append(append([]string{}, drift...), tiedDrift...)
 		if p.Thorough > n {
 			n = p.Thorough
 		}
 		driftBudget = 150 * time.Second
+		if len(drift) == 0 {
+			driftBudget = 45 * time.Second
+		}
 		if v := os.Getenv("VERIF_DRIFT_BUDGET_S"); v != "" {
 			if k, err := strconv.Atoi(v); err == nil && k > 0 {
 				driftBudget = time.Duration(k) * time.Second
@@ -784,6 +790,10 @@ func runCheck(ctx *Ctx) int {
 		// would claim a proof that does not exist; keep only the generic counts.
 		delete(cov, "discharged")
 		cov["discharged_none"] = true
+	}
+	if len(tiedDrift) > 0 {
+		cov["tied_drift"] = tiedDrift
+		cov["tied_drift_note"] = "these modelled functions differ from the validated tree but their go2lean translation is regenerated and the tie theorems were re-checked on it: no drift alarm; the enlarged search ran anyway (the translation idealises int as unbounded)"
 	}
 	if len(drift) > 0 {
 		cov["anchor_drift"] = drift
